@@ -112,6 +112,8 @@ class World:
         self.observed_owner = {}
         self.last_size = {}
         self.last_write = {}
+        self.user_paths = set()
+        self.strays = []
         self.shadow = {}
         self.inv_count = 0
         self.sock_path = os.path.join(self.side, "sock")
@@ -243,6 +245,26 @@ class World:
     def apply_user_op(self, op):
         k = op["op"]
         self.settle()
+        for key in ("path", "dst"):
+            if key in op and k not in ("remove", "purge_strays"):
+                self.user_paths.add(self.abs(op[key]))
+        if k == "purge_strays":
+            # a clean build starts from what the USER put there: files that processes of earlier invocations left
+            # outside the build directories are removed (and counted)
+            keep = [self.abs(d) for d in op.get("keep_dirs", [])]
+            gone = []
+            for dp, dns, fns in os.walk(self.real_root):
+                for f in fns:
+                    p_ = os.path.join(dp, f)
+                    if p_ in self.user_paths or any(self.is_under(p_, os.path.realpath(d)) for d in keep):
+                        continue
+                    if any(self.is_under(p_, os.path.realpath(u)) for u in self.user_paths if os.path.isdir(u)):
+                        continue
+                    gone.append(self.rel(p_))
+                    os.unlink(p_)
+            self.strays = gone
+            self.settle()
+            return
         if "dt_ns" in op:
             self.tick(op["dt_ns"])
         if k == "write":
@@ -297,7 +319,7 @@ class World:
             "PATH": SHIM_DIR + ":" + zygote.VENV_BIN + ":/usr/bin:/bin",
             "NSIM_SOCK": self.sock_path,
             "SOURCE_DATE_EPOCH": SOURCE_DATE_EPOCH,
-            "HOME": "/nonexistent",
+            "HOME": os.path.join(self.side, "home"),
             "LANG": "C.UTF-8",
             "LC_ALL": "C.UTF-8",
             "PYTHONDONTWRITEBYTECODE": "1",
@@ -308,6 +330,9 @@ class World:
         }
         if extra:
             env.update({k: v.replace("$ROOT", self.root).replace("$SIDE", self.side) for k, v in extra.items()})
+        for k in ("HOME", "TMPDIR"):
+            if env.get(k, "").startswith(self.base + os.sep):
+                os.makedirs(env[k], exist_ok=True)
         return env
 
     def invoke(self, op, readdir_seed=None, trace=True):
